@@ -410,7 +410,7 @@ def catalogue():
             T = g_T(t, reversible=True)
             src, snk = src_snk(t, T.shape[0])
             pops = None if t.flag() else tm.eq_probs(T)
-            return (lambda T, a, b, p: f(T, a, b, populations=p)), [as_container(t, T, ('dense', 'dense', 'dense', 'csr')), src, snk, pops], set()
+            return (lambda T, a, b, p: f(T, a, b, populations=p)), [as_container(t, T, ('dense', 'dense', 'dense_f', 'csr', 'csc', 'coo', 'lil')), src, snk, pops], set()
         add('tpt.' + nm, gen)
 
     def g_flux(t):
@@ -664,13 +664,23 @@ def run_once(fn, args, poison, pseed, T, dec, scribble=(), iso=True):
             rs = np.random.RandomState(pseed)
             live[k][...] = rs.choice([np.nan, 1e300, -3.5, 0.0, 42.0], size=live[k].shape)
         before = arg_leaves(live)
+        leaked = None
         try:
             with np.errstate(all='ignore'):
-                res = ('ok', canon(fn(*live)))
+                err0 = np.geterr()
+                try:
+                    res = ('ok', canon(fn(*live)))
+                finally:
+                    if np.geterr() != err0:
+                        leaked = (err0, np.geterr())
         except SimViolation:
             raise
         except Exception as e:
             res = ('exc', type(e).__name__, str(e)[:120])
+        if leaked is not None:
+            # a routine that changes NumPy's process-wide floating-point error handling and does not put it back makes every
+            # later call of any other routine depend on whether this one ran first
+            raise SimViolation('process_state_changed', '%s left numpy.seterr at %s (was %s)' % (getattr(fn, '__name__', 'routine'), leaked[1], leaked[0]))
         after = arg_leaves(live)
         bad = native.redzone_bad()
         sync = native.gomp_stats()['sync_seen']
